@@ -6,7 +6,7 @@ use crate::model::*;
 use crate::runner::*;
 use crate::util::*;
 use proptest::prelude::*;
-use rust_dsymbols::dsets::{DSet, SimpleDSet};
+use rust_dsymbols::dsets::SimpleDSet;
 use rust_dsymbols::dsyms::{DSym, PartialDSym, SimpleDSym};
 use rust_dsymbols::parse_dsym::parse_dsymbol;
 use serde_json::{json, Value};
